@@ -173,6 +173,29 @@ pub fn worker_main(def: &CheckDef, space_idx: usize, a: u64, b: u64, out_path: &
     });
     let mut out = Outcome::default();
     let samples: Vec<Value> = Vec::new();
+    // determinism probe: the first case of every chunk of a grid / lattice space is executed twice
+    // into scratch outcomes; differing observations mean the harness does not own some source of
+    // nondeterminism, and nothing such a harness reports may be believed (machinery exit)
+    if space.chunk_hint() == 0 && a < b {
+        let probe = |_: u32| {
+            let mut o = Outcome::default();
+            alloc::CUR_CASE.store(a, Ordering::Relaxed);
+            alloc::CASE_STAMP.fetch_add(1, Ordering::Relaxed);
+            o.cur = a;
+            space.run(a, &mut o);
+            let mut d: Vec<u64> = o.digests.iter().copied().collect();
+            d.sort_unstable();
+            let mut k: Vec<String> = o.violations.iter().map(|(_, v)| v.key.clone()).collect();
+            k.sort();
+            (o.transitions, d, k)
+        };
+        let (p1, p2) = (probe(1), probe(2));
+        if p1 != p2 {
+            eprintln!("HARNESS PANIC: nondeterministic case {a} of space {space_idx}: two executions observed {:?} and {:?}", (p1.0, p1.1.len(), &p1.2), (p2.0, p2.1.len(), &p2.2));
+            std::process::exit(101);
+        }
+        out.count("determinism_probes_identical");
+    }
     for idx in a..b {
         alloc::CUR_CASE.store(idx, Ordering::Relaxed);
         alloc::CASE_STAMP.fetch_add(1, Ordering::Relaxed);
